@@ -283,6 +283,12 @@ class Intervals:
             f.r = norm_len(f.r)
         if f.op in ("true", "false"):
             self.bools.add((f.op == "true", f.l))
+        if f.op == "true":
+            # documented value ranges of core's ASCII classifiers
+            m = _re.match(r"^(?:u8|char)::is_ascii(_uppercase|_lowercase|_digit|)\((.*)\)$", f.l)
+            if m:
+                lo, hi = {"_uppercase": (65, 90), "_lowercase": (97, 122), "_digit": (48, 57), "": (0, 127)}[m.group(1)]
+                self._tight(m.group(2), lo, hi)
         if f.op in ("true", "false") and f.l.endswith(")") and "::is_empty(" in f.l:
             m = _re.match(r"^[\w\[\]]+::is_empty\((.*)\)$", f.l)
             if m:
